@@ -72,7 +72,7 @@ def run(ctx):
     ctx.assumptions += ["byte/row/column quantities < 2^32", "theorems assume Summarized/shapeOK of C02 (checked on every real tree by ./check C02)"]
     ctx.extra_lean_dirs = ["C02"]
     ctx.regen()
-    ctx.prove(["TsVerif.C06.Props", "TsVerif.C06.CursorProps", "TsVerif.C06.NodeProps"], "TsVerif/C06/Audit.lean")
+    ctx.prove(["TsVerif.C06.Props", "TsVerif.C06.CursorProps", "TsVerif.C06.NodeProps", "TsVerif.C06.SiblingZw", "TsVerif.C06.NavVariants"], "TsVerif/C06/Audit.lean")
     driver = ctx.build_driver("tsv-c06")
     explorer = ctx.cargo_bin("c06")
     langdump = ctx.cunit("cunit_c02")
@@ -116,7 +116,7 @@ def run(ctx):
     hidden_extra_bad = 0
     hidden_missing_trees = 0
     par = {"parchk": 0, "parzw": 0, "parbad": 0, "parflat": 0, "nschk": 0, "nsout": 0, "nsbad": 0, "nsflat": 0,
-           "pschk": 0, "psout": 0, "psbad": 0, "psflat": 0, "fcbchk": 0, "fcbout": 0, "fcbbad": 0, "fcbflat": 0, "dfrchk": 0, "dfrbad": 0, "dfrflat": 0}
+           "pschk": 0, "psout": 0, "psbad": 0, "psflat": 0, "nfcbchk": 0, "nfcbout": 0, "nfcbbad": 0, "nfcbflat": 0, "ndfrchk": 0, "ndfrbad": 0, "ndfrflat": 0, "pdfrchk": 0, "pdfrbad": 0, "pdfrflat": 0, "znschk": 0, "znsout": 0, "znsbad": 0, "zpschk": 0, "zpsout": 0, "zpsbad": 0, "pgenbad": 0, "znsoutpar": 0, "znsoutfollow": 0, "znsoutzw": 0, "zpsoutpar": 0, "zpsoutid": 0, "zpsoutzw": 0, "fcbchk": 0, "fcbout": 0, "fcbbad": 0, "fcbflat": 0, "dfrchk": 0, "dfrbad": 0, "dfrflat": 0}
     ns_bad_cases = []
     par_bad_cases = []
     per_clause = {}
@@ -149,7 +149,9 @@ def run(ctx):
             par_bad_cases.append("%s: %s" % (cid, specs.get(cid, "")[:120]))
         if (int(kv.get("nsbad", "0") or 0) or int(kv.get("nsflat", "0") or 0) or int(kv.get("psbad", "0") or 0)
                 or int(kv.get("psflat", "0") or 0) or int(kv.get("fcbbad", "0") or 0) or int(kv.get("fcbflat", "0") or 0)
-                or int(kv.get("dfrbad", "0") or 0) or int(kv.get("dfrflat", "0") or 0)) and len(ns_bad_cases) < 3:
+                or int(kv.get("dfrbad", "0") or 0) or int(kv.get("dfrflat", "0") or 0) or int(kv.get("znsbad", "0") or 0)
+                or int(kv.get("zpsbad", "0") or 0) or int(kv.get("pgenbad", "0") or 0)
+                or any(int(kv.get(k, "0") or 0) for k in ["nfcbbad", "nfcbflat", "ndfrbad", "ndfrflat", "pdfrbad", "pdfrflat"])) and len(ns_bad_cases) < 3:
             ns_bad_cases.append("%s: %s" % (cid, specs.get(cid, "")[:120]))
         fan = int(kv.get("fanout", "0") or 0)
         max_fanout = max(max_fanout, fan)
@@ -207,6 +209,22 @@ def run(ctx):
                "%d nodes checked, %d outside, %d bad %s" % (par["pschk"], par["psout"], par["psbad"], "; ".join(ns_bad_cases)))
     ctx.oblige("corr:last(earlierOnPath)=previous-sibling-in-the-flattened-tree(on every node checked)", par["psflat"] == 0,
                "%d differ %s" % (par["psflat"], "; ".join(ns_bad_cases)))
+    ctx.oblige("corr:next_sibling_spec_empty-conclusion-holds-wherever-its-hypotheses-hold(ZERO-WIDTH relevant nodes: psPathOK for the parent, nsPathOK, "
+               "nsZwOK; nodes failing a hypothesis are counted as outside the theorem)", par["znsbad"] == 0 and (par["znschk"] > 0 or evals == 0 or bool(ctx.replay)),
+               "%d zero-width nodes checked, %d outside, %d bad %s" % (par["znschk"], par["znsout"], par["znsbad"], "; ".join(ns_bad_cases)))
+    ctx.oblige("corr:prev_sibling_spec_general-conclusion-holds-wherever-its-hypotheses-hold(ZERO-WIDTH relevant nodes: psPathOK, psZwOK = the scan passes "
+               "everything before the node and stops at every ancestor, i.e. has_trailing_empty_descendant answers as intended)",
+               par["zpsbad"] == 0 and (par["zpschk"] > 0 or evals == 0 or bool(ctx.replay)),
+               "%d zero-width nodes checked, %d outside, %d bad %s" % (par["zpschk"], par["zpsout"], par["zpsbad"], "; ".join(ns_bad_cases)))
+    ctx.oblige("corr:psZwOK-holds-for-every-non-empty-node(the position hypothesis of prev_sibling_spec_general is only a restriction for zero-width nodes)",
+               par["pgenbad"] == 0, "%d non-empty nodes with psPathOK but not psZwOK %s" % (par["pgenbad"], "; ".join(ns_bad_cases)))
+    ctx.coverage["zero_width_sibling_specs"] = {"next_checked": par["znschk"], "next_outside_the_theorem": par["znsout"], "next_conclusion_failures": par["znsbad"],
+                                                "prev_checked": par["zpschk"], "prev_outside_the_theorem": par["zpsout"], "prev_conclusion_failures": par["zpsbad"],
+                                                "non_empty_nodes_violating_psZwOK": par["pgenbad"],
+                                                "next_outside_because": {"parent/id hypotheses": par["znsoutpar"], "nsPathOK (zero-width raw node follows at the same byte)": par["znsoutfollow"],
+                                                                         "nsZwOK (ancestor starting at the node, nothing visible after the node inside it)": par["znsoutzw"]},
+                                                "prev_outside_because": {"parent/id hypotheses": par["zpsoutpar"], "psPathOK (slot id / inline value repeated)": par["zpsoutid"],
+                                                                         "psZwOK (has_trailing_empty_descendant answers otherwise)": par["zpsoutzw"]}}
     ctx.oblige("corr:first_child_for_byte_spec-conclusion-holds-wherever-ndeNode-holds(no dead-end descent; sampled goals at child boundaries)",
                par["fcbbad"] == 0 and (par["fcbchk"] > 0 or evals == 0 or bool(ctx.replay)),
                "%d (node, goal) pairs checked, %d outside, %d bad %s" % (par["fcbchk"], par["fcbout"], par["fcbbad"], "; ".join(ns_bad_cases)))
@@ -216,6 +234,16 @@ def run(ctx):
                par["dfrbad"] == 0 and (par["dfrchk"] > 0 or evals == 0 or bool(ctx.replay)), "%d ranges checked, %d bad %s" % (par["dfrchk"], par["dfrbad"], "; ".join(ns_bad_cases)))
     ctx.oblige("corr:dfrIdeal=smallest-spanning-node-of-the-flattened-tree(on every range checked)", par["dfrflat"] == 0,
                "%d differ %s" % (par["dfrflat"], "; ".join(ns_bad_cases)))
+    ctx.oblige("corr:first_child_for_byte_spec_anon-NAMED-variant-conclusion-holds-wherever-ndeNodeA-holds(same nodes and goals) and fcbNodeA=first-NAMED-child-ending-after-the-goal-in-the-flattened-tree",
+               par["nfcbbad"] == 0 and par["nfcbflat"] == 0 and (par["nfcbchk"] > 0 or evals == 0 or bool(ctx.replay)),
+               "%d (node, goal) pairs checked, %d outside, %d bad, %d differ from flatten %s" % (par["nfcbchk"], par["nfcbout"], par["nfcbbad"], par["nfcbflat"], "; ".join(ns_bad_cases)))
+    ctx.oblige("corr:descendant_for_byte_range_spec_anon-NAMED-variant(range of every non-empty node, from the root: port = dfrIdealA = smallest NAMED spanning node of the flattened tree)",
+               par["ndfrbad"] == 0 and par["ndfrflat"] == 0 and (par["ndfrchk"] > 0 or evals == 0 or bool(ctx.replay)),
+               "%d ranges checked, %d bad, %d differ from flatten %s" % (par["ndfrchk"], par["ndfrbad"], par["ndfrflat"], "; ".join(ns_bad_cases)))
+    ctx.oblige("corr:descendant_for_point_range_spec_partial(POINT range of every node with start < end in row/column order, both flags, from the root: port = dfrIdealP = FT.descendantForPoints)",
+               par["pdfrbad"] == 0 and par["pdfrflat"] == 0 and (par["pdfrchk"] > 0 or evals == 0 or bool(ctx.replay)),
+               "%d ranges checked, %d bad, %d differ from flatten %s" % (par["pdfrchk"], par["pdfrbad"], par["pdfrflat"], "; ".join(ns_bad_cases)))
+    ctx.coverage["named_and_point_variants"] = {k: par[k] for k in ["nfcbchk", "nfcbout", "nfcbbad", "nfcbflat", "ndfrchk", "ndfrbad", "ndfrflat", "pdfrchk", "pdfrbad", "pdfrflat"]}
     ctx.coverage["descendant_for_byte_range_spec"] = {"ranges_checked": par["dfrchk"], "conclusion_failures": par["dfrbad"],
                                                       "dfrIdeal_vs_flatten_differences": par["dfrflat"]}
     ctx.coverage["first_child_for_byte_spec_hypotheses"] = {"pairs_checked": par["fcbchk"], "pairs_outside_the_theorem(dead-end descent)": par["fcbout"],
